@@ -19,12 +19,12 @@ pub fn def() -> CheckDef {
         id: "C16",
         level: "fault_enumeration",
         cases: |t| match t {
-            Tier::Quick => 40,
-            Tier::Thorough => 2_000,
+            Tier::Quick => 40 + CORPUS_QUICK,
+            Tier::Thorough => 2_000 + CORPUS_THOROUGH,
         },
         gen,
         run,
-        rule: "one case = one valid base image (drawn history through the library, or a drawn layout by the independent writer; the first case of a run is a V3 file with > 109 FAT sectors so that DIFAT-sector deviations apply) and (b) the ENUMERATION of every documented tolerated deviation at every applicable place (zero-padded FAT tail; zero-padded DIFAT tail; each FAT / DIFAT sector not marked; DIFAT chain ended by FREESECT; every parent/child pair red-red; every name unterminated; wrong root name; CLSID / creation / modification time on every stream; start sector / size on every storage; FAT / DIFAT / MiniFAT sector counts off by one; non-zero directory-sector count in V3; MiniFAT longer than the mini stream), singly and in drawn combinations of 2-3: permissive open must accept with the SAME logical dump as the undamaged base and strict open must reject; (a) for the whole corpus - base, deviated images and a sample of C05's damaged images - whenever open_strict accepts, open accepts too and both dumps are identical. sub_runs = images judged. Non-trivial: >= 1 deviation applied; distinct = distinct image hashes.",
+        rule: "one case = one valid base image (drawn history through the library, or a drawn layout by the independent writer; the first case of a run is a V3 file with > 109 FAT sectors so that DIFAT-sector deviations apply) and (b) the ENUMERATION of every documented tolerated deviation at every applicable place (zero-padded FAT tail; zero-padded DIFAT tail; each FAT / DIFAT sector not marked; DIFAT chain ended by FREESECT; every parent/child pair red-red; every name unterminated; wrong root name; CLSID / creation / modification time on every stream; start sector / size on every storage; FAT / DIFAT / MiniFAT sector counts off by one; non-zero directory-sector count in V3; MiniFAT longer than the mini stream), singly and in drawn combinations of 2-3: permissive open must accept with the SAME logical dump as the undamaged base and strict open must reject; (a) for the whole corpus - base, deviated images, a sample of C05's damaged images, and (cases 1..300 in quick) 40 small foreign layouts each from the independent writer - whenever open_strict accepts, open accepts too and both dumps are identical. sub_runs = images judged. Non-trivial: >= 1 deviation applied; distinct = distinct image hashes.",
         assumptions: &["the base image must itself pass open_strict; otherwise the case is skipped and counted (that is C02/C03/C04's subject)"],
         cpu_limit_s: 240,
         fault_kinds: "F-FC deviation recipes (enumerated at every place, and combined), plus a sample of C05 damage for clause (a)",
@@ -32,8 +32,21 @@ pub fn def() -> CheckDef {
     }
 }
 
-pub fn gen(seed: u64, idx: u64, _tier: Tier) -> Case {
+const CORPUS_QUICK: u64 = 300;
+const CORPUS_THOROUGH: u64 = 20_000;
+const CORPUS_IMAGES: u64 = 40;
+
+pub fn gen(seed: u64, idx: u64, tier: Tier) -> Case {
     let mut rng = Rng::for_case(seed, "C16", idx);
+    let ncorpus = if tier == Tier::Quick { CORPUS_QUICK } else { CORPUS_THOROUGH };
+    if idx >= 1 && idx <= ncorpus {
+        // clause (a) over many small foreign layouts: strict acceptance => permissive acceptance, same meaning
+        let mut c = Case::new("C16", "foreign-corpus", 3);
+        c.params.insert("seed".into(), (rng.next_u64() >> 2) as i64);
+        c.params.insert("images".into(), CORPUS_IMAGES as i64);
+        return c;
+    }
+    let idx = if idx > ncorpus { idx - ncorpus } else { idx };
     let version = if idx == 0 { 3 } else if rng.chance(1, 2) { 3 } else { 4 };
     let mut c = Case::new("C16", "enumerate", version);
     c.params.insert("seed".into(), (rng.next_u64() >> 2) as i64);
@@ -126,8 +139,34 @@ pub fn run(case: &Case, _known: &BTreeSet<String>) -> Outcome {
         }
         return o;
     }
-    if case.mode == "single-deviation" {
-        // replay of clause (b): params select the recipe instance by index
+    if case.mode == "foreign-corpus" {
+        let mut rng = Rng::new(case.param("seed", 1) as u64);
+        let mut hashes: BTreeSet<u64> = BTreeSet::new();
+        for _ in 0..case.param("images", 40) {
+            let version = if rng.chance(1, 2) { 3 } else { 4 };
+            let mut plan = crate::imgwr::plan_from_seed(rng.next_u64(), version);
+            plan.v3_size_high_garbage = false;
+            plan.library_like_trees = rng.chance(1, 2);
+            let mut crng = Rng::new(rng.next_u64());
+            let mut content = crate::imgwr::gen_content(&mut crng, 8, 6000);
+            content.root.meta.created = 0;
+            let img = match crate::imgwr::write_image(&content, &plan) {
+                Ok(i) => i,
+                Err(_) => continue,
+            };
+            o.stats.sub_runs += 1;
+            o.stats.boundary_checks += 1;
+            hashes.insert(crate::prng::fnv(&img));
+            if let Some(v) = strict_implies_permissive(&img) {
+                report(&mut o, v, "foreign layout (independent writer)", &img, None);
+                break;
+            }
+        }
+        o.stats.state_hashes = hashes.iter().copied().collect();
+        o.stats.trace_hash = hashes.iter().fold(7, |a, b| a ^ crate::prng::mix(*b));
+        o.stats.ok_mutations = hashes.len() as u64;
+        o.stats.nontrivial = !hashes.is_empty();
+        return o;
     }
     let base = match c05::base_of(case) {
         Ok(b) => b,
